@@ -161,6 +161,7 @@ fn handle(mut s: TcpStream) {
             st.resp.clone()
         };
         note_net_call_http();
+        crate::hung::maybe_hang_http(2);
         match resp {
             None => {
                 CHECK_FAULTED.store(true, Ordering::SeqCst);
@@ -217,6 +218,7 @@ fn handle(mut s: TcpStream) {
             st.dl.clone()
         };
         note_net_call_http();
+        crate::hung::maybe_hang_http(3);
         match dl {
             None => {
                 DL_FAULTED.store(true, Ordering::SeqCst);
@@ -256,6 +258,7 @@ fn handle(mut s: TcpStream) {
             st.event_results.get(i).copied().unwrap_or(true)
         };
         note_net_call_http();
+        crate::hung::maybe_hang_http(1);
         if ok {
             match (nonce / 64) % 3 {
                 0 => respond(&mut s, "200 OK", "application/json", b"{}", true),
